@@ -26,7 +26,8 @@ ASSUMPTIONS = [
 
 DIRS = ["a", "ab", "slides", "a.b", "_rels", "[x]"]
 LEAVES = ["a", "ab", "slide1", "slide12.xml", "image007.png", "a.b", "x.tar.gz", "noext", "A.XML",
-          "[x]", "presentation.xml"]
+          "[x]", "presentation.xml",
+          "image\uff12.png"]   # a full-width digit is not a digit of an array part name: no index
 
 
 # ---- reference model ----------------------------------------------------------------------------
